@@ -417,6 +417,7 @@ func (w *Writer) Append(entries []types.LogEntry) error {
 }
 
 func (w *Writer) getOffsets() []uint32 {
+	vhook("writer.loadOffsets", nil)
 	return w.offsets.Load().([]uint32)
 }
 
@@ -661,6 +662,7 @@ func (w *Writer) ForceSeal() (uint64, error) {
 // paths that may call it concurrently. Typically this will be loaded from an
 // atomic int. If the segment is empty lastIndex should return zero.
 func (w *Writer) LastIndex() uint64 {
+	vhook("writer.loadCommitIdx", nil)
 	return atomic.LoadUint64(&w.commitIdx)
 }
 
